@@ -120,6 +120,13 @@ def _sites(fn):
             enc = node.args[0].value if node.args and isinstance(node.args[0], ast.Constant) else None
             if "errors" not in kw and len(node.args) < 2 and str(enc).lower().replace("-", "") not in ("iso88591", "latin1"):
                 return [("decode", "UnicodeDecodeError")]
+        # str.format / % applied to a format string that is not a plain literal (f-string, variable, concatenation with
+        # input): braces or % coming from the peer are interpreted -> KeyError / IndexError / ValueError
+        if isinstance(node, ast.Call) and isinstance(node.func, ast.Attribute) and node.func.attr == "format" \
+                and not (isinstance(node.func.value, ast.Constant) and isinstance(node.func.value.value, str)):
+            return [("format-dynamic", "LookupError"), ("format-dynamic", "ValueError")]
+        if isinstance(node, ast.BinOp) and isinstance(node.op, ast.Mod) and isinstance(node.left, ast.JoinedStr):
+            return [("format-dynamic", "TypeError"), ("format-dynamic", "ValueError")]
         if isinstance(node, ast.Call) and _name(node.func) == "urlsplit":
             return [("urlsplit", "ValueError")]
         # name resolution IDNA-encodes a str host: UnicodeError for an empty / over long label
